@@ -36,7 +36,7 @@ CHECKS.update({
     "C09": dict(
         category="exploration",
         technique="exhaustive enumeration of all binary expression trees up to depth 3 (thorough 4) over 18 leaves x 113 operators evaluated in-process, compared with an independent reference bit-string evaluator",
-        text="Every expression tree of depth <= 3 (thorough: depth <= 4 except array nodes over depth-3 children) over 18 leaves x 113 operators + [x,y] is evaluated by fq in-process and compared value-for-value (bits, unit, bit-accurate start; error versus value) with a reference evaluator written from doc/usage.md. The split/concat law is checked for every k and both units; a textual section re-evaluates a fixed subset as full programs.",
+        text="Every expression tree of depth <= 3 (thorough: depth <= 4 except array nodes over depth-3 children) over 18 leaves x 113 operators + [x,y] is evaluated by fq in-process and compared value-for-value (bits, unit, bit-accurate start; error versus value) with a reference evaluator written from doc/usage.md. The split/concat law is checked for every k and both units; a textual section re-evaluates a fixed subset as full programs. Every binary is read into a zeroed and into an all-ones destination; the bits must not depend on the destination's previous content.",
         design_ref="§C09",
         note="Assumptions A1-A6 are written into evidence/C09.json (floor/ceil of unaligned keys, zero fill side, fractional truncation, out of range index null, range variants start, decode value contribution). Negative top-level numbers, tovalue of non whole-byte binaries and non-UTF-8 code point operations are outside the documented domain and counted as unmodelled.",
         engine="enum",
@@ -55,7 +55,7 @@ CHECKS.update({
     "C19": dict(
         category="model_checking",
         technique="BFS over packet histories (state = capture prefix, successor = history + one packet) of generated conversations: every segmentation x interleaving x single deviation (swap, duplicate, overlap, omission, fragmentation), every capture decoded by the real pcap/pcapng decoders and compared with a reference TCP stream / IPv4 defragmentation model",
-        text="Hand-written (gopacket independent) Ethernet/SLL/SLL2/loopback/raw/IPv4/TCP framing and pcap LE/BE/ns and pcapng writers generate every conversation in the bound: 1-2 connections, payload 0..6 bytes per direction, every segmentation into <=3 segments, every interleaving, handshake and FIN present/absent, then every single deviation at every placement (thorough: pairs of deviations), all link types x capture formats, a fragment grid (2 and 3 fragments at every 8 byte boundary in every arrival order), 4 KiB/64 KiB payloads and sequence number wrap. Each capture is decoded by fq and endpoint addresses/ports, stream bytes, skipped_bytes>0 iff data behind a missing byte was captured, has_start/has_end and ipv4_reassembled are compared with a reference stream model (RFC 793/791).",
+        text="Hand-written (gopacket independent) Ethernet/SLL/SLL2/loopback/raw/IPv4/TCP framing and pcap LE/BE/ns and pcapng writers generate every conversation in the bound: 1-2 connections, payload 0..6 bytes per direction, every segmentation into <=3 segments, every interleaving, handshake and FIN present/absent, then every single deviation at every placement (thorough: pairs of deviations), all link types x capture formats, a fragment grid (2 and 3 fragments at every 8 byte boundary in every arrival order), 4 KiB/64 KiB payloads and sequence number wrap. Each capture is decoded by fq and endpoint addresses/ports, stream bytes, skipped_bytes>0 iff data behind a missing byte was captured, has_start/has_end and ipv4_reassembled are compared with a reference stream model (RFC 793/791). Section matrix-dev: single deviations and the fragment grid under every capture format (with ethernet) and every link type (with pcap LE).",
         design_ref="§C19",
         note="Trusted: the reference stream model and the writer (self-verifying checksums). Not judged: directions without a SYN whose first byte was never captured; exact skipped_bytes value. Known finding: gopacket v1.3.1 Sequence.Difference off by one at the 2^32 wrap (dependency, cannot be repaired inside the repository), isolated in its own section.",
         engine="seqx",
@@ -63,7 +63,7 @@ CHECKS.update({
     "C20": dict(
         category="model_checking",
         technique="stateless DFS over all thread interleavings under a cooperative scheduler with iterated preemption bound (0,1,2,3) then unbounded with state pruning, on ctxstack instrumented at check time by an AST rewriter (access points on every Stack field, go statements, channel close/poll, sync -> shim); vector-clock race detection, deadlock detection, linearizability oracle; plus explicit-state BFS over push/finish/interrupt/stop histories against a stack model",
-        text="(1) BFS to depth 7 (thorough 9) over push (child of the innermost live evaluation or of background) / finish of any handle incl. double and out-of-order finish / interrupt / stop on the real ctxstack.Stack, every context's cancellation state compared with a stack model after every step, states merged by a deep hash of the real object. (2) 11 scenarios of an evaluating thread, the trigger goroutine delivering 1-2 interrupts and an optional stopping thread: every schedule with <= 3 preemptions, then every schedule (state pruned), on a copy of ctxstack.go instrumented at check time from the live source (so removed locks or new unsynchronised accesses are seen); each execution is checked for Go panics, unordered conflicting accesses (vector clocks over spawn, mutex, once, channel close->poll edges), deadlock, livelock and linearizability of what the evaluating thread observes. (3) REPL sessions nested 1..3 levels with the interrupt delivered at the k-th stdout write of a line: nothing of the interrupted evaluation is written afterwards, the same level runs the next line, outer levels survive. (4) iox.CtxWriter and ctxreadseeker over all short Read/Seek/Close sequences with cancellation at every boundary and inside every underlying call.",
+        text="(1) BFS to depth 7 (thorough 9) over push (child of the innermost live evaluation or of background) / finish of any handle incl. double and out-of-order finish / interrupt / stop on the real ctxstack.Stack, every context's cancellation state compared with a stack model after every step, states merged by a deep hash of the real object. (2) 11 scenarios of an evaluating thread, the trigger goroutine delivering 1-2 interrupts and an optional stopping thread: every schedule with <= 3 preemptions, then every schedule (state pruned), on a copy of ctxstack.go instrumented at check time from the live source (so removed locks or new unsynchronised accesses are seen); each execution is checked for Go panics, unordered conflicting accesses (vector clocks over spawn, mutex, once, channel close->poll edges), deadlock, livelock and linearizability of what the evaluating thread observes. (3) REPL sessions nested 1..3 levels with the interrupt delivered at the k-th stdout write of a line: nothing of the interrupted evaluation is written afterwards, the same level runs the next line, outer levels survive. (4) iox.CtxWriter and ctxreadseeker over all short Read/Seek/Close sequences with cancellation at every boundary and inside every underlying call. (3b) evaluation histories: lines ending in every way an evaluation can end (value, error, nested eval finished / failed and caught / abandoned) before and as a silent prelude of the line under test, interrupt at the k-th write.",
         design_ref="§C20",
         note="Trusted: the scheduler (src/vhook, ~500 lines), the AST rewriter (tools/instr), the stack model. Hooked accesses are explored as sequentially consistent atomic steps. The unbounded pass uses state pruning and decides outcomes and deadlocks; races are decided by the bounded passes. (3) uses a 150 ms settle time after the interrupt token was consumed and re-runs with 1.5 s before reporting; whether ctxreadseeker's worker closes the file after a cancellation that ties with a result hand-over depends on the Go runtime's select choice and is not judged.",
         engine="sched",
@@ -74,7 +74,7 @@ CHECKS.update({
     "C18": dict(
         category="model_checking",
         technique="exhaustive enumeration of job histories (all sequences of <= 3 decode+display jobs from a pool of 7 in two sharing modes, outputs compared with fresh-process lone runs) + stateless DFS over thread interleavings of format registry resolution under the controlled scheduler (preemption bound 0..3, then unbounded) on registry.go instrumented at check time, vector-clock race detection; free-running Go race detector pass as supplement in the thorough tier",
-        text="(1) All sequences of <= 3 (thorough 4) jobs from {mp3, gzip with nested JSON, pcap with TCP reassembly, JSON, truncated file forced to decode, CSV with comma option, CSV without} run on fresh interpreters sharing the process wide registry and on one interpreter via successive evaluations; every job's dump, JSON value and nested field bytes must be byte identical to the job's lone run in a fresh process, and a fingerprint of every default argument in the registry must not change; all lists of <= 3 inputs to one fq invocation must print the concatenation of the lone invocations. (2) 2-3 threads calling Registry.Group/MustAll/Groups on a fresh registry with dependencies: every schedule up to 3 preemptions and then all schedules, on registry.go instrumented from the live source (every Registry field and every .Formats access is a point, sync is shimmed): no unordered conflicting accesses, no deadlock, resolved groups identical to the sequential resolution. (3) thorough: the job bodies on 8 free running goroutines in a -race build (sampling supplement, reported separately).",
+        text="(1) All sequences of <= 3 (thorough 4) jobs from {mp3, gzip with nested JSON, pcap with TCP reassembly, JSON, truncated file forced to decode, CSV with comma option, CSV without} run on fresh interpreters sharing the process wide registry and on one interpreter via successive evaluations; every job's dump, JSON value and nested field bytes must be byte identical to the job's lone run in a fresh process, and a fingerprint of every default argument in the registry must not change; all lists of <= 3 inputs to one fq invocation must print the concatenation of the lone invocations. (2) 2-3 threads calling Registry.Group/MustAll/Groups on a fresh registry with dependencies: every schedule up to 3 preemptions and then all schedules, on registry.go instrumented from the live source (every Registry field and every .Formats access is a point, sync is shimmed): no unordered conflicting accesses, no deadlock, resolved groups identical to the sequential resolution. (3) thorough: the job bodies on 8 free running goroutines in a -race build (sampling supplement, reported separately). The free-running race detector pass runs in both tiers over the corpus: the smallest file of every format (242 jobs) decoded by two goroutines at the same time in a -race build, results compared with a lone decode.",
         design_ref="§C18",
         note="The claim is about separate interpreters sharing the registry (concurrent evaluation on one interpreter is not something fq does). Format packages are not instrumented: unsynchronised package state inside decoders is covered by the history differential (sequential leakage) and by the free-running race pass (thorough), not by the scheduler. Go map iteration order inside resolveGroups is not controlled; it does not change enabledness on the unchanged tree.",
         engine="sched",
@@ -85,7 +85,7 @@ CHECKS.update({
     "C10": dict(
         category="exploration",
         technique="exhaustive product of subjects (all binaries B[a:b], all values of all DSL trees <=2 ops) x display options (line_bytes 1..64 x addrbase x sizebase x display_bytes x verbose x colour x unicode), dumps parsed back by an independent dump grammar parser and compared with the buffer bytes; big-number JSON decoder for JSON output",
-        text="Every binary B[a:b] (0<=a<=b<=40 bits plus tail ranges, buffers of 0/1/5/17/70 bytes, and 1000/1296/4096 byte buffers for address width at exact powers of the base) is dumped with hd for every line_bytes 1..64 x display_bytes grid x addrbase (other options rotating; the full 76,200 configuration product on 14 representative binaries; thorough: full product everywhere); every value of every DSL tree with <=2 ops (thorough 3) incl. nested buffers is dumped with d/dd/dv/ddv over a systematic option grid. A parser of the dump grammar recovers (address, byte) pairs per row and buffer root: every hex pair and ASCII character must equal the buffer byte at the printed row address + column, non-truncated values must show each of their bytes exactly once, verbose range/size text must equal the value's range in the given base (math/big formatter). JSON output (-V, tojson, tovalue, compact/indented, colour on/off) of the numeric pool incl. 2^64, 10^30, 5e-324 is parsed by a big-number decoder and compared exactly.",
+        text="Every binary B[a:b] (0<=a<=b<=40 bits plus tail ranges, buffers of 0/1/5/17/70 bytes, and 1000/1296/4096 byte buffers for address width at exact powers of the base) is dumped with hd for every line_bytes 1..64 x display_bytes grid x addrbase (other options rotating; the full 76,200 configuration product on 14 representative binaries; thorough: full product everywhere); every value of every DSL tree with <=2 ops (thorough 3) incl. nested buffers is dumped with d/dd/dv/ddv over a systematic option grid. A parser of the dump grammar recovers (address, byte) pairs per row and buffer root: every hex pair and ASCII character must equal the buffer byte at the printed row address + column, non-truncated values must show each of their bytes exactly once, verbose range/size text must equal the value's range in the given base (math/big formatter). JSON output (-V, tojson, tovalue, compact/indented, colour on/off) of the numeric pool incl. 2^64, 10^30, 5e-324 is parsed by a big-number decoder and compared exactly. The JSON number pool holds both signs of 2^k-1, 2^k, 2^k+1 for k in {31,32,52,53,62,63,64,65,127,128}.",
         design_ref="§C10",
         note="Bulk dumps call the exported Display method with options built once per configuration through fq's own options(); every configuration is also run once through the real hd/d/dd/dv/ddv functions and must print byte-identical output. Ranges and nested buffer contents are taken from C03/C04/C09. Known finding: nested buffer address column truncation, pinned by 138 goldens.",
         engine="enum",
@@ -101,7 +101,7 @@ CHECKS.update({
     "C14": dict(
         category="exploration",
         technique="exhaustive enumeration of input grids (all byte strings <=3 over an 8 byte alphabet also as non byte aligned binaries, all strings <=3 runes over 13 runes, integers x bases 2..64, all JSON values <=4 nodes, all single-character edits of well formed encodings) through every encoder/decoder pair, against inverse laws and independent reference codecs",
-        text="hex, 4 base64 variants and 9 hashes on 4753 binaries; urlencode/urlpath/urlquery/url, iso8859_1, utf8/16 variants, xmlentities on 2380 strings and 16k query objects; to/from_radix on 98 integers x 63 bases; tojson/to_jq/to_yaml/to_toml/to_jsonl/to_xml/to_csv and their decoders on every JSON value with <=4 nodes over 14 leaves restricted to each format's domain; 12,832 malformed texts (every single character deletion/insertion/substitution of 5 seeds per decoder) must give an error or a value that re-encodes to the same text. References: own RFC 4648/3986/Unicode codecs cross-checked against the Go standard library at start, crypto/*, x/crypto, net/url, encoding/json|xml|csv, python hashlib in thorough.",
+        text="hex, 4 base64 variants and 9 hashes on 4753 binaries; urlencode/urlpath/urlquery/url, iso8859_1, utf8/16 variants, xmlentities on 2380 strings and 16k query objects; to/from_radix on 98 integers x 63 bases; tojson/to_jq/to_yaml/to_toml/to_jsonl/to_xml/to_csv and their decoders on every JSON value with <=4 nodes over 14 leaves restricted to each format's domain; 12,832 malformed texts (every single character deletion/insertion/substitution of 5 seeds per decoder) must give an error or a value that re-encodes to the same text. References: own RFC 4648/3986/Unicode codecs cross-checked against the Go standard library at start, crypto/*, x/crypto, net/url, encoding/json|xml|csv, python hashlib in thorough. Section held: every binary-returning conversion function on all ordered pairs and triples of 6 inputs with all results kept alive before any is read (result aliasing between calls).",
         design_ref="§C14",
         note="Equality is exact canonical JSON (big integers as digits). Known findings are library level (yaml/toml big integers as strings pinned by goldens, BurntSushi/toml empty key arrays, csv comment character and blank line for a single empty field from encoding/csv, xml text before the root, C1 numeric references).",
         engine="enum",
@@ -117,7 +117,7 @@ CHECKS.update({
     "C16": dict(
         category="exploration",
         technique="exhaustive enumeration of all JSON-like values <=3 nodes (thorough 4) over a boundary leaf set x every wire encoding of each value from independent spec-derived encoders x every truncation point x trailing data, decoded by fq and compared with the source value",
-        text="msgpack, cbor (all five length forms, indefinite strings/arrays/maps with every <=2 chunk split, half/single/double floats), bson, bencode, ASN.1 BER (definite short/long, indefinite constructed, REAL), json, jsonl, yaml (flow, block, !!binary), toml, xml (object and array mode), csv: 43,563 values, 310,857 encodings; from_F|torepr (binary) / from_F (text) must equal the value exactly (integers as big numbers, floats by bits); all 4.7M proper prefixes of encodings <=64 bytes must be decode errors; trailing data must be an error for text formats and exactly one gap field with an unchanged tree for binary formats. Encoders are anchored to RFC 8949 appendix A, bsonspec, msgpack and BitTorrent vectors and encoding/asn1.",
+        text="msgpack, cbor (all five length forms, indefinite strings/arrays/maps with every <=2 chunk split, half/single/double floats), bson, bencode, ASN.1 BER (definite short/long, indefinite constructed, REAL), json, jsonl, yaml (flow, block, !!binary), toml, xml (object and array mode), csv: 43,563 values, 310,857 encodings; from_F|torepr (binary) / from_F (text) must equal the value exactly (integers as big numbers, floats by bits); all 4.7M proper prefixes of encodings <=64 bytes must be decode errors; trailing data must be an error for text formats and exactly one gap field with an unchanged tree for binary formats. Encoders are anchored to RFC 8949 appendix A, bsonspec, msgpack and BitTorrent vectors and encoding/asn1. Text formats: every structural token after every separator as trailing data, judged against a whole-document validity reference.",
         design_ref="§C16",
         note="3-node values in quick vary one node's wire form at a time (full product in thorough). Known findings: cbor indefinite string break byte (pinned by appendix_a golden), asn1_ber zero length taken as indefinite (pinned by tc44/tc45 goldens), asn1 constructed string without segments, bencode integers beyond int64.",
         engine="enum",
@@ -138,8 +138,8 @@ CHECKS.update({
 CHECKS.update({
     "C06": dict(
         category="fault_enumeration",
-        technique="exhaustive enumeration of a fully indexed mutation family (operator, offset, value) around one seed per registered format x {own format, forced, probe} plus every seed and its first 64 truncations under all formats with force; each case decoded, dumped and converted in-process, worker deaths attributed to the announced case",
-        text="Seeds: for each of the 132 registered formats the smallest corpus file or embedded sub-tree that decodes as that format (17 formats without a seed are listed in evidence) plus literal seeds and the empty file. Family: truncation to every length 0..64 and len-8..len-1; every byte at offset < 64 overwritten with 00, ff, 7f, 80, b^01, b^80; every aligned 2 and 4 byte window set to 00.., ff.., 7fff.., 8000.. in both endians; removal and duplication of 1/4/16/512 byte blocks (thorough: offsets < 512, three seeds). Each case runs decode + verbose dump + tovalue on one long lived interpreter per worker with the case announced first, so a Go panic (returned as a value) or a fatal runtime error killing the worker (out of memory under the 16 GiB address space ceiling, stack overflow) is attributed to exactly one case; every distinct faulting site is re-run 5 times and through the process-like entry (exit status, stderr). Enumeration is offset major so a deadline leaves 'all operators at offsets < X'.",
+        technique="exhaustive enumeration of a fully indexed mutation family (operator, offset, value) around one seed per registered format x {own format, forced, probe} plus every seed and its first 64 truncations under all formats with force; each case decoded, dumped and converted in-process, worker deaths attributed to the announced case; structural mutations (remove/duplicate/swap/zero/ones) of every value range of the seed's decode tree incl. coverage seeds",
+        text="Seeds: for each of the 132 registered formats the smallest corpus file or embedded sub-tree that decodes as that format (17 formats without a seed are listed in evidence) plus literal seeds and the empty file. Family: truncation to every length 0..64 and len-8..len-1; every byte at offset < 64 overwritten with 00, ff, 7f, 80, b^01, b^80; every aligned 2 and 4 byte window set to 00.., ff.., 7fff.., 8000.. in both endians; removal and duplication of 1/4/16/512 byte blocks (thorough: offsets < 512, three seeds). Each case runs decode + verbose dump + tovalue on one long lived interpreter per worker with the case announced first, so a Go panic (returned as a value) or a fatal runtime error killing the worker (out of memory under the 16 GiB address space ceiling, stack overflow) is attributed to exactly one case; every distinct faulting site is re-run 5 times and through the process-like entry (exit status, stderr). Enumeration is offset major so a deadline leaves 'all operators at offsets < X'. Structural section: the byte range of every compound of the seed's own decode tree (breadth first) removed, duplicated, swapped, zeroed, set to ones, and every leaf field set to all ones, on the smallest-file seeds and on coverage seeds chosen by greedy cover of field names and box/chunk type values.",
         design_ref="§C06",
         note="Non-termination and memory growth are not judged by a clock: a case exceeding 3 s CPU / 1 GiB heap is inconclusive and listed, never an alarm. A deliberately panicking harness format must be re-panicked by recoverfn (guards against a recover that swallows everything).",
         engine="enum",
@@ -166,7 +166,7 @@ CHECKS.update({
     "C05": dict(
         category="exploration",
         technique="exhaustive enumeration of every value of every tree of all decoder-DSL programs up to an op bound (decoded at the jq level from whole, byte-sliced and bit-sliced inputs and with a root array) and of every corpus file x format x truncation family; tobits/tobytes/._bits/._bytes, 7 bits_format renderings of every raw leaf and raw CLI stdout compared with the harness' own slice of the value's buffer",
-        text="Every value (3.5M in the quick tier) of every tree produced by (a) all decoder-DSL programs with <= 3 ops (thorough 4), nesting <= 3, on 2 inputs, also decoded from tobytes[1:], tobits[3:] and with a root array, incl. nested buffers derived as identity/complement/reverse of parent bits, and (b) every corpus file under format/*/testdata x {probe, the -d formats of its fqtests} x {intact, three truncations}: tobits, tobytes, ._bits, ._bytes are read back bit exactly and compared with the harness' slice (range of the value in the buffer it belongs to, zero bits prepended to a byte boundary); every raw leaf is rendered with every bits_format (string, hex, base64, byte_array, md5, truncate, snippet) and decoded back; process-like CLI runs (fq tobytes, fq -d bytes tobytes, fq '.field|tobytes') compare raw stdout with the file bytes.",
+        text="Every value (3.5M in the quick tier) of every tree produced by (a) all decoder-DSL programs with <= 3 ops (thorough 4), nesting <= 3, on 2 inputs, also decoded from tobytes[1:], tobits[3:] and with a root array, incl. nested buffers derived as identity/complement/reverse of parent bits, and (b) every corpus file under format/*/testdata x {probe, the -d formats of its fqtests} x {intact, three truncations}: tobits, tobytes, ._bits, ._bytes are read back bit exactly and compared with the harness' slice (range of the value in the buffer it belongs to, zero bits prepended to a byte boundary); every raw leaf is rendered with every bits_format (string, hex, base64, byte_array, md5, truncate, snippet) and decoded back; process-like CLI runs (fq tobytes, fq -d bytes tobytes, fq '.field|tobytes') compare raw stdout with the file bytes. Section large: file-backed values of 512 KiB+3 / 1 MiB+3 bytes on a (start, stop) bit grid around the read-ahead block and copy buffer sizes, as decode value and as binary, through the command line with the real open stack, raw stdout compared bit for bit.",
         design_ref="§C05",
         note="Trusted: the harness' bit slicer (src/c05/bits.go) and, for DSL trees, the reference interpreter's buffer contents; for real formats a nested buffer's contents are only known through fq (its root's own tobits), the contents themselves are C15's subject. A rendering of a range that is not a whole number of bytes may pad on either side. Quick skips trees above 20000 values / files above 256 KiB (counted in evidence).",
         engine="enum",
@@ -174,7 +174,7 @@ CHECKS.update({
     "C07": dict(
         category="exploration",
         technique="grammar-directed exhaustive enumeration of standard jq programs by operator count (size 0, 1, 2; thorough 3 over a reduced set) over a 17 value input pool, and full products of inputs x patterns x flags for every standard builtin fq redefines (found at run time by intersecting gojq's builtin table with fq's bundled jq definitions); differential against the same gojq fork run bare (Parse/Compile/Run without fq code), outputs and error positions compared",
-        text="L1: every program with <= 2 operator nodes of the standard grammar over the atom/operator sets recorded in evidence (101 atoms, 132 operators at size 1; 7 atoms x 57 operators at size 2; 697k programs, 11.9M (program, input) pairs in the quick tier) is evaluated by fq's interpreter (prelude in scope) and by bare gojq on every value of a 17 value pool; the sequence of outputs (canonical JSON, exact integers) and the output index of an error must agree. L2: every standard builtin that fq's bundled jq sources redefine (21 found at run time; a new redefinition without an argument pool fails the run) over full products of string inputs x regex patterns x flags, tojson/fromjson value products, debug/stderr/input/inputs. CLI section: programs run through interp.Main with --argjson and stdout parsed back (colorjson, display).",
+        text="L1: every program with <= 2 operator nodes of the standard grammar over the atom/operator sets recorded in evidence (101 atoms, 132 operators at size 1; 7 atoms x 57 operators at size 2; 697k programs, 11.9M (program, input) pairs in the quick tier) is evaluated by fq's interpreter (prelude in scope) and by bare gojq on every value of a 17 value pool; the sequence of outputs (canonical JSON, exact integers) and the output index of an error must agree. L2: every standard builtin that fq's bundled jq sources redefine (21 found at run time; a new redefinition without an argument pool fails the run) over full products of string inputs x regex patterns x flags, tojson/fromjson value products, debug/stderr/input/inputs. CLI section: programs run through interp.Main with --argjson and stdout parsed back (colorjson, display). The value returned by fromjson is judged primitive by primitive (every deviating (probe, JSON type) pair is its own recorded signature), with observe-after probes (a primitive must not change its operand); CLI section (c): a user definition of every function name fq defines, in 14 placement forms, passed unwrapped through interp.Main.",
         design_ref="§C07",
         note="Error message texts are not compared. Differences are classified by test, never by pattern: a difference counts as a recorded class only if a rewritten program (e.g. fromjson|tovalue, doubled backslashes in split's separator) agrees completely between the engines. A program on which the reference engine itself panics has no reference behaviour and gets no verdict (counted). Documented divergences (doc/usage.md) are explicit exceptions.",
         engine="enum",
